@@ -29,8 +29,9 @@ func (f fakeImporter) Import(path string) (*types.Package, error) {
 // detectRangeOverChan type-checks the package with all imports stubbed out (errors ignored) and
 // reports the range statements whose operand is known to be a channel. Channels whose type comes
 // from an imported package stay undetected; they do not occur in code that runs under the scheduler.
-func detectRangeOverChan(fset *token.FileSet, files []*ast.File) map[*ast.RangeStmt]bool {
+func detectRangeOverChan(fset *token.FileSet, files []*ast.File) (map[*ast.RangeStmt]bool, map[*ast.RangeStmt]bool) {
 	res := map[*ast.RangeStmt]bool{}
+	maps := map[*ast.RangeStmt]bool{}
 	info := &types.Info{Types: map[ast.Expr]types.TypeAndValue{}}
 	conf := types.Config{Importer: fakeImporter{pkgs: map[string]*types.Package{}}, Error: func(error) {}}
 
@@ -43,6 +44,10 @@ func detectRangeOverChan(fset *token.FileSet, files []*ast.File) map[*ast.RangeS
 					if _, ok := tv.Type.Underlying().(*types.Chan); ok {
 						res[rs] = true
 					}
+
+					if _, ok := tv.Type.Underlying().(*types.Map); ok {
+						maps[rs] = true
+					}
 				}
 			}
 
@@ -50,5 +55,5 @@ func detectRangeOverChan(fset *token.FileSet, files []*ast.File) map[*ast.RangeS
 		})
 	}
 
-	return res
+	return res, maps
 }
